@@ -201,6 +201,45 @@ func cmdCheck(mode string, args []string) {
 		fmt.Printf("VIOLATION property=%s replay=%s obligation=%s reason=%s%s\n", *prop, f, obl, reason, suffix)
 	}
 
+	var prog *Program
+	replaysLeft := 4
+	// reportFailed: a claimed obligation failed; where the function is within reach of the scalar replay
+	// (engine/replay.go) the failure is turned into a concrete failing input on the real code
+	reportFailed := func(j *OblResult, obl, reason string) {
+		if prog != nil && replaysLeft > 0 && !*selftest {
+			if fn := prog.funcs[j.Obl.Func]; fn != nil && scalarReplayable(fn) {
+				replaysLeft--
+				ro := prog.replayScalar(*repo, fn, j.Obl, j.Res.Model)
+				if os.Getenv("VERIF_DEBUG_REPLAY") != "" {
+					if ro == nil {
+						fmt.Fprintln(os.Stderr, "replay: not attempted / failed for", obl)
+					} else {
+						fmt.Fprintf(os.Stderr, "replay %s: confirmed=%v\n%s\n%s\n", obl, ro.Confirmed, ro.Output, ro.Source)
+					}
+				}
+				if ro != nil && ro.Confirmed {
+					violations++
+					os.MkdirAll(replayDir, 0o755)
+					f := filepath.Join(replayDir, sanitize(obl)+".json")
+					src := "the solver's counterexample"
+					if !ro.FromModel {
+						src = "a grid of ordinary and boundary inputs tried after the obligation failed (the solver's counterexample was absent or did not reproduce)"
+					}
+					// the generated test is kept beside the replay file so that the replay can be re-run as it stands
+					tf := filepath.Join(replayDir, sanitize(obl)+"_replay_test.go")
+					os.WriteFile(tf, []byte(ro.Source), 0o644)
+					rerun := fmt.Sprintf("/verif/replay/run.sh %s %s TestGovcReplay", ro.PkgDir, tf)
+					rb, _ := json.MarshalIndent(map[string]interface{}{"property": *prop, "obligation": obl, "reason": reason, "solver_output": j.Res.Output,
+						"failing_input": ro.Input, "failing_input_from": src, "replay_test": tf, "replay_output": ro.Output, "how_to_rerun": rerun}, "", " ")
+					os.WriteFile(f, rb, 0o644)
+					fmt.Printf("VIOLATION property=%s replay=%s obligation=%s reason=%s; replayed on the real code: %s\n", *prop, f, obl, reason, ro.Input)
+					return
+				}
+			}
+		}
+		report(obl, reason, j.Res.Output, true)
+	}
+
 	p, err := loadProgram(*repo, cfg.Packages)
 	if err != nil {
 		// the tree does not compile: nothing can be established
@@ -214,6 +253,7 @@ func cmdCheck(mode string, args []string) {
 		os.Exit(2)
 	}
 	p.computeMods()
+	prog = p
 	fns, err := resolveFuncs(p, cfg.Functions)
 	missingFn := ""
 	if err != nil {
@@ -332,11 +372,11 @@ func cmdCheck(mode string, args []string) {
 		case "discharged":
 			discharged++
 		case "refuted":
-			report(n, "claimed obligation refuted (counterexample in replay file)", j.Res.Output, true)
+			reportFailed(j, n, "claimed obligation refuted (counterexample in replay file)")
 		case "vacuous":
 			report(n, "preconditions became unsatisfiable (vacuous proof)", j.Res.Output, true)
 		default:
-			report(n, "claimed obligation no longer discharges ("+j.Res.Status+")", j.Res.Output, true)
+			reportFailed(j, n, "claimed obligation no longer discharges ("+j.Res.Status+")")
 		}
 	}
 	// new obligations
